@@ -188,11 +188,26 @@ class Prop:
                 else:
                     steps.append(["right", rng.randint(1, N - 1)])
             mk(tj, steps, "history")
+        # 9. tensors that come out of the arithmetic (TT x CP products: a CP factor at either end of one operand), then
+        #    orthogonalize(mu) for every mu: gauge, factors and the norm identity on what `*` returns
+        for _ in range(60 if quick else 400):
+            N = rng.randint(2, 4); shape = rshape(N, 3)
+            k1 = [("tt", rng.random() < 0.3) for _ in range(N)]
+            k2 = [(rng.choice(["tt", "cp"]), rng.random() < 0.3) for _ in range(N)]
+            k2[rng.choice([0, N - 1])] = ("cp", rng.random() < 0.3)
+            a = rand_tensor_json(rng, shape, k1, maxr=2, maxs=3); b = rand_tensor_json(rng, shape, k2, maxr=3, maxs=3)
+            if rng.random() < 0.5:
+                a, b = b, a
+            mk(a, [["orth", rng.randint(-N, N - 1)]], "product")
+            cases[-1]["times"] = b
+            cases[-1]["tags"]["formats"] = tsig(a) + "*" + tsig(b)
         return cases
 
     # ------------------------------------------------------------------ implementation
     def run(self, case):
         t = to_tn(case["t"])
+        if case.get("times") is not None:     # the operand of the sweep is a product built through the API
+            t = t * to_tn(case["times"])
         snaps = []
         i = -1
         try:
@@ -214,6 +229,8 @@ class Prop:
     # ------------------------------------------------------------------ specification
     def expected(self, case):
         x = dense_np(case["t"])
+        if case.get("times") is not None:
+            x = x * dense_np(case["times"])
         return {"ok": True, "shape": list(x.shape), "dense": x.reshape(-1).tolist(), "norm": _fro(x)}
 
     def agree(self, case, res, exp):
@@ -326,7 +343,7 @@ class Prop:
         """oracle replay: histories made of one orthogonalize(mu) on small tensors; torch.linalg.qr is intercepted, its
         arguments and answers are recorded and handed to the Coq model together with the implementation's final tensor"""
         from fractions import Fraction
-        if not res.get("ok") or len(case["steps"]) != 1 or case["steps"][0][0] != "orth":
+        if not res.get("ok") or len(case["steps"]) != 1 or case["steps"][0][0] != "orth" or case.get("times") is not None:
             return None
         tj = case["t"]; N = len(tj["modes"])
         if N > 4 or max(max(np.array(m["core"]).shape) for m in tj["modes"]) > 4:
@@ -345,8 +362,9 @@ class Prop:
             return None
         finally:
             torch.linalg.qr = orig
-        D = 2 ** 30
-        ql = lambda x: "(%d#%d)" % (round(float(x) * D), D)
+        # the recorded doubles are handed over exactly: rounding them (formerly to 2^-30) puts an absolute error of 1e-9
+        # into every product, which is visible whenever the exact result cancels (zero tensors, rank-deficient factors)
+        ql = lambda x: qlit(Fraction(float(x)))
         def a2(M):
             return "(mkA2 %d %d %s)" % (M.shape[0], M.shape[1], coq_list(M.reshape(-1).tolist(), ql, "Q"))
         # each recorded contract is also validated numerically (orthonormal columns, exact factorisation)
